@@ -11,7 +11,7 @@ WORDS = ["ash", "bell", "cove", "dune", "elm", "fog", "gate", "hill", "ivy", "je
 
 ALL_FEATURES = {"print", "glue", "tags", "icond", "iseq", "set", "temp", "block_if", "block_seq", "choices", "nested",
                 "labels", "fallback", "conds", "sticky", "counts", "turns", "loops", "tunnels", "threads", "choice_print",
-                "done", "functions", "choice_tags", "stitches", "typed_vars", "if_diverts", "cond_choices"}
+                "done", "functions", "choice_tags", "stitches", "typed_vars", "if_diverts", "cond_choices", "externals"}
 
 
 # a logic line (~) that calls a function ends the line of whatever the function printed
@@ -57,6 +57,7 @@ class Gen:
         self.after_choice = False
         self.focus = focus        # "bursts" | "nested" | None: raises the odds of one sensitive pattern
         self.funcs = []           # functions that may be called from the code being generated: dict(name, params)
+        self.externs = []         # external functions of the host: dict(name, params, coef, add, safe)
         self.in_choice_text = False
         self.quiet = set()        # tunnels that print nothing
 
@@ -160,9 +161,13 @@ class Gen:
     def knot_names(self):
         return ["k%d" % i for i in range(self.nknots)]
 
+    def callables(self):
+        return (self.funcs if self.has("functions") else []) + (self.externs if self.has("externals") else [])
+
     def call(self):
         """(f, args ast, text) of a call of one of the callable functions"""
-        f = self.r.choice(self.funcs)
+        f = self.r.choice(self.externs if self.focus == "externs" and self.externs and self.has("externals") and self.p(0.7)
+                          else self.callables())
         args, texts = [], []
         for _ in f["params"]:
             a, t = self.expr(1)
@@ -178,8 +183,14 @@ class Gen:
             op = self.r.choice(["+", "-", "*"])
             b, tb = self.expr(1)
             st["mode"] = mode + "expr"
-            st["e"] = {"k": "b", "op": op, "a": {"k": "var", "n": "$ret"}, "b": b}
-            text = "(%s %s %s)" % (text, op, tb)
+            if any(x["name"] == f for x in self.externs) and self.p(0.6):
+                # an external function cannot touch the story's variables: it may stand to the right of any operand
+                # (whose value then lies on the evaluation stack below the call's arguments)
+                st["e"] = {"k": "b", "op": op, "a": b, "b": {"k": "var", "n": "$ret"}}
+                text = "(%s %s %s)" % (tb, op, text)
+            else:
+                st["e"] = {"k": "b", "op": op, "a": {"k": "var", "n": "$ret"}, "b": b}
+                text = "(%s %s %s)" % (text, op, tb)
         return st, text
 
     # ------------------------------------------------------------------ inline content
@@ -194,7 +205,7 @@ class Gen:
             k = r.random()
             if not rich or k < 0.45 or (i == 0 and rich == "print"):
                 segs.append(("lit", self.words(1, 2)))
-            elif k < 0.52 and rich is True and self.funcs and self.has("functions"):
+            elif k < 0.52 and rich is True and self.callables():
                 st, t = self.call_stmt("print")
                 segs.append(("stmt", st, "{%s}" % t))
             elif (k < 0.65 or rich == "print") and self.has("print"):
@@ -272,7 +283,7 @@ class Gen:
     def logic(self, ind):
         r = self.r
         ints = [g["n"] for g in self.globals if g["v"]["t"] == "int"]
-        if self.funcs and self.has("functions") and self.p(0.35):
+        if self.callables() and self.p(0.6 if self.focus == "externs" else 0.35):
             k = r.random()
             if k < 0.3:
                 st, t = self.call_stmt("drop")
@@ -720,6 +731,12 @@ class Gen:
         self.cur = ""
         root = self.body([{"k": "div", "t": "k0"}])
         src.append("-> k0")
+        if self.has("externals"):
+            for i in range(r.randint(1, 2)):
+                n = r.randint(1, 2)
+                self.externs.append({"name": "e%d" % i, "params": ["p%d" % j for j in range(n)],
+                                     "coef": [r.randint(1, 3) for _ in range(n)], "add": r.randint(0, 2), "safe": self.p(0.5)})
+            src += ["EXTERNAL %s(%s)" % (x["name"], ", ".join(x["params"])) for x in self.externs]
         fsrc = []
         if self.has("functions"):
             for i in range(r.randint(2, 3)):
@@ -767,7 +784,8 @@ class Gen:
             src += lines
         src += fsrc
         prog = {"bodies": self.bodies, "knots": self.knots, "globals": self.globals, "root": root, "owner": self.owner,
-                "ochain": self.ochain}
+                "ochain": self.ochain,
+                "externs": {x["name"]: {"coef": x["coef"], "add": x["add"], "safe": x["safe"]} for x in self.externs}}
         return prog, "\n".join(src) + "\n"
 
 
@@ -779,7 +797,9 @@ def clone(stmts):
 def generate(seed, features=None, knots=3, size=1.0, focus=None):
     g = Gen(seed, features, knots, size, focus)
     prog, src = g.program()
-    return {"prog": prog, "ink": src, "seed": seed, "knots": list(g.knots), "features": sorted(g.f)}
+    binds = [{"op": "bind", "name": x["name"], "safe": x["safe"], "spec": {"impl": "lin", "coef": x["coef"], "add": x["add"]}}
+             for x in g.externs]
+    return {"prog": prog, "ink": src, "seed": seed, "knots": list(g.knots), "features": sorted(g.f), "binds": binds}
 
 
 if __name__ == "__main__":
